@@ -66,7 +66,7 @@ from vgi_rpc.rpc._types import (
     RpcMethodInfo,
     _unwrap_annotated,
 )
-from vgi_rpc.shm import ShmSegment, is_shm_pointer_batch, maybe_write_to_shm, resolve_shm_batch
+from vgi_rpc.shm import ShmSegment, free_shm_pointer, is_shm_pointer_batch, maybe_write_to_shm, resolve_shm_batch
 from vgi_rpc.utils import (
     ArrowSerializableDataclass,
     IpcValidation,
@@ -477,6 +477,11 @@ def _decode_request(
         )
     method_name_bytes = custom_metadata.get(RPC_METHOD_KEY) if custom_metadata else None
     if method_name_bytes is None:
+        # Not a request.  On a socket this is typically the input stream of a
+        # stream call that was rejected before its stream opened; the client
+        # may have routed that input batch through shm, and since it will never
+        # be resolved its region has to be given back here.
+        free_shm_pointer(batch, custom_metadata, shm)
         raise _MissingMethodError(
             "ProtocolError",
             "Missing 'vgi_rpc.method' in request batch custom_metadata. "
